@@ -67,7 +67,8 @@ fn run_once(s: &Subject, archive: &[u8], sched: &Schedule) -> Result<Run, infra:
             Side::RepairSource(q) => {
                 let cut = archive.len() * q / 4;
                 let src = ThrottledSource::new(&archive[..cut], st2.clone());
-                match sweep::repair_eval_from(src, &[0], true) {
+                // unauthenticated mode for even quarters, the default (authenticated only) mode for odd ones
+                match sweep::repair_eval_from(src, &[0], q % 2 == 0) {
                     RepairEval::Done(r) => {
                         // the order of the unfinished list is HashMap iteration order: compare as a set
                         let mut unfinished = r.unfinished.clone();
